@@ -16,13 +16,15 @@ pub enum E {
 	Lit(u64),
 	Var(&'static str),
 	LenOf(&'static str),
+	/// `pool_slots(&this.x)`; the second component lists the variants for which `.slots()` answers 2
+	SlotsOf(&'static str, &'static [usize]),
 	ThisLen,
 	Add(&'static E, &'static E),
 	Sub(&'static E, &'static E),
 	Mul(&'static E, &'static E),
 }
 pub struct TE { pub bits: u32, pub e: E }
-pub enum Ty { Prim(u8), VecCnt(u8, &'static Ty), VecLen(TE, &'static Ty), Ref(usize) }
+pub enum Ty { Prim(u8), VecCnt(u8, &'static Ty), VecLen(TE, &'static Ty), VecSlots(TE, &'static [usize], &'static Ty), Ref(usize) }
 pub struct ConstD { pub name: &'static str, pub bytes: u8, pub e: TE, pub lit: Option<u64> }
 pub enum FieldKind { Field(Ty, bool), NoWrite(u8, TE) }
 pub struct FieldD { pub name: &'static str, pub kind: FieldKind, pub post: &'static [ConstD] }
@@ -106,7 +108,7 @@ pub fn len_v(defs: &[DefD], ty: &Ty, v: &Val) -> u128 {
 	match (ty, v) {
 		(Ty::Prim(b), Val::Num(_)) => *b as u128,
 		(Ty::VecCnt(c, el), Val::List(vs)) => *c as u128 + vs.iter().map(|x| len_v(defs, el, x)).sum::<u128>(),
-		(Ty::VecLen(_, el), Val::List(vs)) => vs.iter().map(|x| len_v(defs, el, x)).sum::<u128>(),
+		(Ty::VecLen(_, el), Val::List(vs)) | (Ty::VecSlots(_, _, el), Val::List(vs)) => vs.iter().map(|x| len_v(defs, el, x)).sum::<u128>(),
 		(Ty::Ref(id), Val::Node(k, fs)) => match defs.get(*id) {
 			Some(DefD::Struct { body, .. }) => len_body(defs, body, fs),
 			Some(DefD::Enum { tag_bytes, variants, .. }) => match variants.get(*k) {
@@ -129,6 +131,10 @@ fn len_body(defs: &[DefD], body: &BodyD, fs: &[Val]) -> u128 {
 	n
 }
 
+/// `RawLayout.slotsV` / `slotsAll`
+pub fn slots_v(wide: &[usize], v: &Val) -> u128 { match v { Val::Node(k, _) if wide.contains(k) => 2, _ => 1 } }
+pub fn slots_all(wide: &[usize], vs: &[Val]) -> u128 { vs.iter().map(|v| slots_v(wide, v)).sum() }
+
 fn len32(n: u128) -> Option<u128> { if n < (1u128 << 32) { Some(n) } else { None } }
 
 struct WCtx<'a> { this_len: Option<u128>, fields: Vec<(&'static str, &'a Val)> }
@@ -140,6 +146,7 @@ fn eval_w(bits: u32, cx: &WCtx, e: &E) -> Option<u128> {
 		E::Lit(n) => Some(*n as u128),
 		E::Var(x) => match cx.fields.iter().find(|(k, _)| k == x) { Some((_, Val::Num(n))) => Some(*n as u128), _ => None },
 		E::LenOf(x) => match cx.fields.iter().find(|(k, _)| k == x) { Some((_, Val::List(vs))) => Some(vs.len() as u128), _ => None },
+		E::SlotsOf(x, wide) => match cx.fields.iter().find(|(k, _)| k == x) { Some((_, Val::List(vs))) => Some(slots_all(wide, vs)), _ => None },
 		E::ThisLen => cx.this_len,
 		E::Add(a, b) => checked(bits, eval_w(bits, cx, a)? + eval_w(bits, cx, b)?),
 		E::Sub(a, b) => { let (x, y) = (eval_w(bits, cx, a)?, eval_w(bits, cx, b)?); if y <= x { Some(x - y) } else { None } }
@@ -153,7 +160,7 @@ fn eval_r(bits: u32, binds: &Binds, e: &E) -> Option<u128> {
 	match e {
 		E::Lit(n) => Some(*n as u128),
 		E::Var(x) => binds.iter().rev().find(|(k, _)| k == x).map(|(_, n)| *n),
-		E::LenOf(_) | E::ThisLen => None,
+		E::LenOf(_) | E::SlotsOf(..) | E::ThisLen => None,
 		E::Add(a, b) => checked(bits, eval_r(bits, binds, a)? + eval_r(bits, binds, b)?),
 		E::Sub(a, b) => { let (x, y) = (eval_r(bits, binds, a)?, eval_r(bits, binds, b)?); if y <= x { Some(x - y) } else { None } }
 		E::Mul(a, b) => checked(bits, eval_r(bits, binds, a)?.checked_mul(eval_r(bits, binds, b)?)?),
@@ -164,11 +171,21 @@ fn pat_match(p: &PatD, t: u128) -> bool {
 	match p { PatD::Lit(n) => t == *n as u128, PatD::Range(lo, hi) => *lo as u128 <= t && t <= *hi as u128, PatD::Any => true }
 }
 
-/// Some(Ok(b)) = guard evaluates to b ; None = the guard fails (error or panic)
-fn pool_has_utf8(utf8: usize, pool: Option<&[Val]>, index: u128, value: &[u8]) -> Option<bool> {
+/// `RawLayout.poolGet`: the entry whose constant-pool index is `index` (the first one has index 1, each one follows the
+/// one before it at the distance of its slots)
+fn pool_get<'a>(wide: &[usize], pool: &'a [Val], index: u128) -> Option<&'a Val> {
+	let mut at = 1u128;
+	for e in pool {
+		if at == index { return Some(e); }
+		at += slots_v(wide, e);
+	}
+	None
+}
+
+/// Some(b) = guard evaluates to b ; None = the guard fails (error)
+fn pool_has_utf8(utf8: usize, wide: &[usize], pool: Option<&[Val]>, index: u128, value: &[u8]) -> Option<bool> {
 	let pool = pool?;
-	if index == 0 { return None; }
-	match pool.get((index - 1) as usize)? {
+	match pool_get(wide, pool, index)? {
 		Val::Node(k, fs) if *k == utf8 => match fs.as_slice() {
 			[Val::List(bs)] => {
 				let mut ns = Vec::new();
@@ -182,12 +199,12 @@ fn pool_has_utf8(utf8: usize, pool: Option<&[Val]>, index: u128, value: &[u8]) -
 }
 
 /// index of the variant the reader dispatches to for `tag` (None: error / panic / no arm)
-pub fn select_idx(utf8: usize, pool: Option<&[Val]>, tag: u128, variants: &[VariantD]) -> Option<usize> {
+pub fn select_idx(utf8: usize, wide: &[usize], pool: Option<&[Val]>, tag: u128, variants: &[VariantD]) -> Option<usize> {
 	for (i, v) in variants.iter().enumerate() {
 		if !pat_match(&v.pat, tag) { continue; }
 		match v.guard {
 			None => return Some(i),
-			Some(name) => if pool_has_utf8(utf8, pool, tag, name)? { return Some(i); },
+			Some(name) => if pool_has_utf8(utf8, wide, pool, tag, name)? { return Some(i); },
 		}
 	}
 	None
@@ -204,25 +221,26 @@ fn consts_binds(cx: &WCtx, binds: &mut Binds, cs: &[ConstD]) -> bool {
 }
 
 /// `RawLayout.fitsV`
-pub fn fits<'a>(defs: &[DefD], utf8: usize, pool: Option<&'a [Val]>, binds: &Binds, ty: &Ty, v: &'a Val) -> bool {
+pub fn fits<'a>(defs: &[DefD], utf8: usize, wide: &[usize], pool: Option<&'a [Val]>, binds: &Binds, ty: &Ty, v: &'a Val) -> bool {
 	match (ty, v) {
 		(Ty::Prim(b), Val::Num(n)) => (*n as u128) < bound(*b),
-		(Ty::VecCnt(c, el), Val::List(vs)) => (vs.len() as u128) < bound(*c) && vs.iter().all(|x| fits(defs, utf8, pool, binds, el, x)),
-		(Ty::VecLen(e, el), Val::List(vs)) => eval_r(e.bits, binds, &e.e) == Some(vs.len() as u128) && vs.iter().all(|x| fits(defs, utf8, pool, binds, el, x)),
+		(Ty::VecCnt(c, el), Val::List(vs)) => (vs.len() as u128) < bound(*c) && vs.iter().all(|x| fits(defs, utf8, wide, pool, binds, el, x)),
+		(Ty::VecLen(e, el), Val::List(vs)) => eval_r(e.bits, binds, &e.e) == Some(vs.len() as u128) && vs.iter().all(|x| fits(defs, utf8, wide, pool, binds, el, x)),
+		(Ty::VecSlots(e, w, el), Val::List(vs)) => eval_r(e.bits, binds, &e.e) == Some(slots_all(w, vs)) && vs.iter().all(|x| fits(defs, utf8, wide, pool, binds, el, x)),
 		(Ty::Ref(id), Val::Node(k, fs)) => {
 			let this_len = len32(len_v(defs, ty, v));
 			match defs.get(*id) {
-				Some(DefD::Struct { body, .. }) => *k == 0 && fits_body(defs, utf8, pool, Vec::new(), this_len, body, fs),
+				Some(DefD::Struct { body, .. }) => *k == 0 && fits_body(defs, utf8, wide, pool, Vec::new(), this_len, body, fs),
 				Some(DefD::Enum { tag_name, tag_bytes, variants, .. }) => {
 					let Some(var) = variants.get(*k) else { return false };
 					let cx = WCtx { this_len, fields: var.body.fields.iter().map(|f| f.name).zip(fs.iter()).collect() };
 					let Some(t) = eval_w(var.tag.bits, &cx, &var.tag.e) else { return false };
 					let tag = t % bound(*tag_bytes);
-					if select_idx(utf8, pool, tag, variants) != Some(*k) { return false; }
+					if select_idx(utf8, wide, pool, tag, variants) != Some(*k) { return false; }
 					// lookups take the most recent binding: the pattern binding shadows the tag variable
 					let mut head: Binds = vec![(*tag_name, tag)];
 					if let Some(b) = var.bind { head.push((b, tag)); }
-					fits_body(defs, utf8, pool, head, this_len, &var.body, fs)
+					fits_body(defs, utf8, wide, pool, head, this_len, &var.body, fs)
 				}
 				None => false,
 			}
@@ -231,7 +249,7 @@ pub fn fits<'a>(defs: &[DefD], utf8: usize, pool: Option<&'a [Val]>, binds: &Bin
 	}
 }
 
-fn fits_body<'a>(defs: &[DefD], utf8: usize, pool: Option<&'a [Val]>, mut binds: Binds, this_len: Option<u128>, body: &BodyD, fs: &'a [Val]) -> bool {
+fn fits_body<'a>(defs: &[DefD], utf8: usize, wide: &[usize], pool: Option<&'a [Val]>, mut binds: Binds, this_len: Option<u128>, body: &BodyD, fs: &'a [Val]) -> bool {
 	if body.fields.len() != fs.len() { return false; }
 	let cx = WCtx { this_len, fields: body.fields.iter().map(|f| f.name).zip(fs.iter()).collect() };
 	if !consts_binds(&cx, &mut binds, body.pre) { return false; }
@@ -239,7 +257,7 @@ fn fits_body<'a>(defs: &[DefD], utf8: usize, pool: Option<&'a [Val]>, mut binds:
 	for (f, v) in body.fields.iter().zip(fs.iter()) {
 		match &f.kind {
 			FieldKind::Field(ty, sets_pool) => {
-				if !fits(defs, utf8, pool, &binds, ty, v) { return false; }
+				if !fits(defs, utf8, wide, pool, &binds, ty, v) { return false; }
 				if let Val::Num(n) = v { binds.push((f.name, *n as u128)); }
 				if *sets_pool { if let Val::List(vs) = v { pool = Some(vs); } }
 			}
@@ -252,34 +270,4 @@ fn fits_body<'a>(defs: &[DefD], utf8: usize, pool: Option<&'a [Val]>, mut binds:
 		if !consts_binds(&cx, &mut binds, f.post) { return false; }
 	}
 	true
-}
-
-// ---------------------------------------------------------------- region of the open JVMS defect (`RawLayout.avoidsV` / `knownBad`)
-
-/// `RawLayout.knownBad`: long/double pool entries (NestMembers / MethodParameters were repaired in /repo)
-pub fn known_bad(cp_id: usize, id: usize, v: &VariantD) -> bool {
-	id == cp_id && matches!(v.tag.e, E::Lit(5) | E::Lit(6))
-}
-
-/// `RawLayout.avoidsV`: no node of the value is a variant for which `bad` holds
-pub fn avoids(defs: &[DefD], bad: &dyn Fn(usize, &VariantD) -> bool, ty: &Ty, v: &Val) -> bool {
-	match (ty, v) {
-		(Ty::VecCnt(_, el), Val::List(vs)) | (Ty::VecLen(_, el), Val::List(vs)) => vs.iter().all(|x| avoids(defs, bad, el, x)),
-		(Ty::Ref(id), Val::Node(k, fs)) => match defs.get(*id) {
-			Some(DefD::Struct { body, .. }) => avoids_fields(defs, bad, body, fs),
-			Some(DefD::Enum { variants, .. }) => match variants.get(*k) {
-				Some(var) => !bad(*id, var) && avoids_fields(defs, bad, &var.body, fs),
-				None => true,
-			},
-			None => true,
-		},
-		_ => true,
-	}
-}
-
-fn avoids_fields(defs: &[DefD], bad: &dyn Fn(usize, &VariantD) -> bool, body: &BodyD, fs: &[Val]) -> bool {
-	body.fields.iter().zip(fs.iter()).all(|(f, v)| match &f.kind {
-		FieldKind::Field(ty, _) => avoids(defs, bad, ty, v),
-		FieldKind::NoWrite(..) => true,
-	})
 }
